@@ -1039,10 +1039,6 @@ def sec_uuid(ctx, B):
     def form128(v, n):
         return base + (struct.pack('<H', v) + b'\0\0' if n == 2 else struct.pack('<I', v))
     known16 = [0x1800, 0x1801, 0x2800, 0x2803, 0x2902, 0x0001, 0x0003, 0x0100, 0x1101, 0x110A]
-    # the registry as it is when this section starts (everything imported, parsed and
-    # constructed so far in this process), defined once for the model
-    base_reg = [bytes(u.uuid_bytes) for u in U.UUIDS]
-    B.preamble.append('Definition c18_reg0 : list (list Z) := [' + '; '.join(cb(b) for b in base_reg) + '].')
     for hnum in range(ctx.n(45, 1500)):
         ops = []
         vals16 = [rng.choice(known16 + [rng.below(65536)]) for _ in range(3)]
@@ -1096,9 +1092,25 @@ def sec_uuid(ctx, B):
             else:
                 mops.append(f'UFrom32 {o[1]}')
             expect.append(some(list(g)) if g is not None else None)
-        assert reg0[:len(base_reg)] == base_reg
-        regterm = '(c18_reg0 ++ [' + '; '.join(cb(b) for b in reg0[len(base_reg):]) + '])'
-        B.add(f'let r := uuid_trace {regterm} [' + '; '.join(mops) + f'] in (fst r, skipn {len(reg0)} (snd r))',
+        # The model gets the part of the registry that can matter to this history: the entries equal
+        # (as bytes or as 128-bit UUIDs) to a UUID the history mentions, in registration order.
+        # register() only ever compares the new UUID with the entries, so the rest is irrelevant.
+        def to128(b):
+            return base + b + b'\0\0' if len(b) == 2 else base + b if len(b) == 4 else b
+        mentioned = set()
+        for o in ops:
+            if o[0] in ('b', 'p'):
+                mentioned.add(bytes.fromhex(o[1]))
+            elif o[0] == 'p2':
+                mentioned.add(bytes.fromhex(o[1])[:2])
+            elif o[0] == '16':
+                mentioned.add(struct.pack('<H', o[1]))
+            elif o[0] == '32':
+                mentioned.add(struct.pack('<I', o[1]))
+        m128 = {to128(b) for b in mentioned if len(b) in (2, 4, 16)}
+        rel = [b for b in reg0 if b in mentioned or to128(b) in m128]
+        regterm = '[' + '; '.join(cb(b) for b in rel) + ']'
+        B.add(f'let r := uuid_trace {regterm} [' + '; '.join(mops) + f'] in (fst r, skipn {len(rel)} (snd r))',
               (expect, [list(b) for b in added]), 'UUID registry history', {'ops': ops})
     # value-level checks that do not depend on the registry: 128-bit expansion and the ATT form
     for _ in range(ctx.n(40, 600)):
